@@ -1,5 +1,5 @@
 (* C14 - Algorithm and attestation-format lists are filtered in order, never rejected. *)
-From Ctap Require Import Base Schema Wire Utf8 Typed Procs Inst Tables ProcTables Finite FramingP WireP FilterP ObRequestSide FnShapes Shapes ObShapeFilters.
+From Ctap Require Import Base Schema Wire Utf8 Typed Procs Inst Tables ProcTables Finite FramingP WireP FilterP ObRequestSide FnShapes Shapes ObShapeFilters Deps ObDeps.
 Local Open Scope string_scope.
 Local Open Scope Z_scope.
 
@@ -66,6 +66,10 @@ Proof. vm_compute. reflexivity. Qed.
 Theorem c14_modelled_functions_unchanged_filters : shapes_hold fn_shapes shapes_filters = true.
 Proof. exact generated_shapes_filters. Qed.
 
+(* the third-party crates the model represents by hand are pinned at the versions it was written against *)
+Theorem c14_modelled_dependencies_pinned : deps_hold lock_versions cargo_deps = true.
+Proof. exact generated_deps. Qed.
+
 Eval vm_compute in "ASSUMPTIONS c14_known_param". Print Assumptions c14_known_param.
 Eval vm_compute in "ASSUMPTIONS c14_params_filter". Print Assumptions c14_params_filter.
 Eval vm_compute in "ASSUMPTIONS c14_loop_is_fold". Print Assumptions c14_loop_is_fold.
@@ -74,3 +78,4 @@ Eval vm_compute in "ASSUMPTIONS c14_model_steps". Print Assumptions c14_model_st
 Eval vm_compute in "ASSUMPTIONS c14_generated_constants". Print Assumptions c14_generated_constants.
 Eval vm_compute in "ASSUMPTIONS c14_generated_conforms". Print Assumptions c14_generated_conforms.
 Eval vm_compute in "ASSUMPTIONS c14_modelled_functions_unchanged_filters". Print Assumptions c14_modelled_functions_unchanged_filters.
+Eval vm_compute in "ASSUMPTIONS c14_modelled_dependencies_pinned". Print Assumptions c14_modelled_dependencies_pinned.
